@@ -49,7 +49,10 @@ def main():
         # demo on the unpatched tree
         ok, log = build_demo(wt, demo, wt + "/_demo/demo_clean")
         assert ok, "demo does not build on clean tree: " + log
-        r0 = sh("cd %s/_demo && timeout 300 ./demo_clean" % wt)
+        if os.environ.get("SEED_DEMO_WT"):   # demo that rebuilds the library itself: wants its own source as <wt>/demo.cpp and the worktree as argument
+            shutil.copy(demo, os.path.join(wt, "demo.cpp"))
+        run = (lambda exe: sh("cd %s && timeout 600 ./_demo/%s %s" % (wt, exe, wt))) if os.environ.get("SEED_DEMO_WT") else (lambda exe: sh("cd %s/_demo && timeout 300 ./%s" % (wt, exe)))
+        r0 = run("demo_clean")
         meta["demo_clean_exit"] = r0.returncode
         r = sh("git -C %s apply --3way %s" % (wt, patch))
         if r.returncode != 0:
@@ -59,9 +62,11 @@ def main():
         newpatch = sh("git -C %s diff" % wt).stdout
         ok, log = build_demo(wt, demo, wt + "/_demo/demo_patched")
         assert ok, "patched tree does not compile: " + log
-        r1 = sh("cd %s/_demo && timeout 300 ./demo_patched" % wt)
+        r1 = run("demo_patched")
         meta["demo_patched_exit"] = r1.returncode
         shutil.rmtree(wt + "/_demo")
+        sh("rm -rf %s/demo.cpp %s/_demo2 %s/_demo_out %s/_d2" % (wt, wt, wt, wt))
+        sh("git -C %s clean -fdq -e _tbuild" % wt)
         t = sh("%s/tools/run_baseline.sh %s" % (VERIF, wt))
         meta["repo_tests_pass_with_patch"] = t.returncode == 0
         meta["repo_tests_tail"] = t.stdout.strip().split("\n")[-3:]
